@@ -10,8 +10,14 @@
 //!   io.println("P") ; io.println(<spelling>)
 //! to ONE file and records the values ("V:<file>:<name>") that spelling produced.
 //!
-//!   --gen N --seed S [--probes K]     structured families + N random trees
-//!   --file F                          trees in the text format (corpus), separated by lines "===="
+//!   --gen N --seed S [--probes K] [--maxfiles M] [--deep D] [--sessions S] [--threads T]
+//!                                     structured families + N random trees (entry compiled at O(index mod 4))
+//!                                     + N/6 REPL sessions; trees may contain symlinks and an aelys.toml with
+//!                                     explicit module paths
+//!   --file F                          trees / sessions in the text format (corpus), separated by lines "===="
+//! A REPL session (lines starting `Build_sq`) runs its inputs one after the other with
+//! aelys_driver::run_with_vm_and_opt on ONE VM from the tree's root directory (serially: the working
+//! directory is process-wide); all other cases run on worker threads (the verif hooks are thread-local).
 #![allow(clippy::all)]
 use hxlib::*;
 use std::collections::BTreeSet;
